@@ -15,6 +15,11 @@ from vlib import fakedb, framework
 from vlib.framework import Harness
 from vlib.symx import Assume, assume, native
 
+try:  # warm import: symx.native()/assume() look at the tracer state (also in tracer-less replays)
+    import crosshair.tracers  # noqa: F401
+except ImportError:
+    pass
+
 from sqlalchemy import create_engine, event
 from sqlalchemy import exc as sa_exc
 from sqlalchemy.dialects import registry
@@ -152,11 +157,14 @@ def _h_disc(n: int, op0: int, op1: int, listener: int, ops, fcode) -> bool:
     """``ops``: the history (first / second operation fixed by the slice); ``fcode`` encodes the fault:
     position in the history (fcode // 4), which DBAPI call of that operation fails (cursor() or the
     statement: (fcode // 2) % 2) and whether the error looks like a disconnect to the dialect (fcode % 2)."""
-    ok = (0 <= fcode) & (fcode < 4 * n) & (ops[0] == op0)
-    fixed = 1
-    if op1 >= 0:
-        ok = ok & (ops[1] == op1)
-        fixed = 2
+    ok = (0 <= fcode) & (fcode < 4 * n)
+    fixed = 0
+    if op0 >= 0:
+        ok = ok & (ops[0] == op0)
+        fixed = 1
+        if op1 >= 0:
+            ok = ok & (ops[1] == op1)
+            fixed = 2
     for o in ops[fixed:]:
         ok = ok & (0 <= o) & (o < NOPS)
     assume(ok)  # one fork for all bounds
@@ -165,7 +173,7 @@ def _h_disc(n: int, op0: int, op1: int, listener: int, ops, fcode) -> bool:
     cops = []
     nested_seen = 0
     for i in range(n):
-        o = op0 if i == 0 else (op1 if i < fixed else _pick(ops[i], 0, NOPS))
+        o = _pick(ops[i], 0, NOPS) if i >= fixed else (op0 if i == 0 else op1)
         if o in (SP_COMMIT, SP_ROLLBACK):
             assume(nested_seen > 0)
         if o == BEGIN_NESTED:
@@ -222,6 +230,7 @@ def _run(n, listener, ops, fpos, off, looks_disc) -> bool:
     sps = []                # NestedTransaction handles of the current transaction
     committed: List[int] = []
     pending: List[List[int]] = [[]]  # rows per savepoint level
+    loose_rows = False      # rows of a transaction whose COMMIT/ROLLBACK/savepoint statement failed may linger (C23)
     fired_at = None
     for i in range(n):
         op = ops[i]
@@ -278,6 +287,8 @@ def _run(n, listener, ops, fpos, off, looks_disc) -> bool:
                     _fail("%s:dbapi-connection-not-closed" % what)
                 stale = [raw0] if listener == L_NOPOOL else list(srv.connections)
                 pending = [[]]
+                loose_rows = False  # the server connection is gone, and its uncommitted rows with it
+                committed = list(srv.committed)
                 if op == ROLLBACK:
                     in_txn = False  # the transaction is over whether or not the ROLLBACK got through
                     nsp = 0
@@ -292,6 +303,7 @@ def _run(n, listener, ops, fpos, off, looks_disc) -> bool:
             else:
                 if conn.invalidated or conn.connection.dbapi_connection is not raw0 or raw0.closed:
                     _fail("%s:connection-invalidated" % what)
+                loose_rows = True
                 if op == COMMIT:
                     blocked = "failed-commit"
                 elif op == ROLLBACK:
@@ -362,6 +374,9 @@ def _run(n, listener, ops, fpos, off, looks_disc) -> bool:
                     in_txn = False
                     nsp = 0
                     sps = []
+                    if loose_rows:
+                        committed = list(srv.committed)
+                        loose_rows = False
                 elif op == ROLLBACK:
                     pending = [[]]
                     in_txn = False
@@ -376,7 +391,7 @@ def _run(n, listener, ops, fpos, off, looks_disc) -> bool:
                     nsp -= 1
                     sps.pop()
                     pending.pop()
-            if srv.committed != committed:
+            if not loose_rows and srv.committed != committed:
                 _fail("%s:committed-rows" % what, "%r %r" % (srv.committed, committed))
             if conn.in_transaction() != in_txn:
                 _fail("%s:in_transaction" % what)
@@ -417,8 +432,15 @@ def _run(n, listener, ops, fpos, off, looks_disc) -> bool:
     if len(set(g.id for g in got)) != 3:
         _fail("%s:same-dbapi-connection-handed-out-twice" % tail)
     if disconnected:
-        if listener != L_NOPOOL and not all(s.closed for s in stale):
-            _fail("%s:stale-dbapi-connection-left-open" % tail, repr([(s.id, s.closed) for s in stale]))
+        if listener != L_NOPOOL:
+            if not all(s.closed for s in stale):
+                _fail("%s:stale-dbapi-connection-left-open" % tail, repr([(s.id, s.closed) for s in stale]))
+        else:
+            # invalidate_pool_on_disconnect=False: "only the current connection that is the subject of the
+            # error will actually be invalidated" -- the two idle connections stay in use
+            idle = srv.connections[:2]
+            if any(c.closed for c in idle) or not all(c in got for c in idle):
+                _fail("%s:idle-connections-invalidated" % tail, repr([(c.id, c.closed) for c in idle]))
     else:
         # pool contents identical: the same three DBAPI connections, nothing opened, nothing closed
         if sorted(g.id for g in got) != [0, 1, 2] or len(srv.connections) != 3:
@@ -433,7 +455,9 @@ def _run(n, listener, ops, fpos, off, looks_disc) -> bool:
 META = {
     "explanation": "Real Engine/Connection/QueuePool over a fake DBAPI; one DBAPI error is injected at a symbolic DBAPI call "
                    "(cursor() or the statement itself) of a symbolic operation history; error kind, handle_error listener "
-                   "behaviour and history are inputs.  Checked: DBAPIError.connection_invalidated, Connection.invalidated, "
+                   "behaviour and history are inputs: the solver decides every step and the fault code (binary search over z3-decided "
+                   "comparisons), impossible histories are cut before an engine is built, and the SQLAlchemy code then runs on the "
+                   "realised input (no symbolic value can reach it).  Checked: DBAPIError.connection_invalidated, Connection.invalidated, "
                    "identity/closedness of every fake DBAPI connection handed out afterwards, 'raises until rollback()', "
                    "transparent reconnect after rollback(), and that ordinary errors leave pool and connection untouched.",
     "functions": [
@@ -449,7 +473,7 @@ META = {
         "quick": {"history length": "<=3 (7 operations) for all listener modes; 4 without listener and with the flipping listener", "fault": "one DBAPI error at any operation, "
                   "at cursor() or at the statement; kinds: disconnect, looks-like-disconnect-but-alive, ordinary",
                   "listeners": LNAMES, "pool": "QueuePool(5) holding 2 idle older connections + the one in use"},
-        "thorough": {"history length": "<=4 for all listener modes; 5 without listener, and with the flipping listener for histories starting with execute / begin_nested", "fault": "as quick", "listeners": LNAMES, "pool": "as quick"},
+        "thorough": {"history length": "<=4 for all listener modes; 5 without listener", "fault": "as quick", "listeners": LNAMES, "pool": "as quick"},
     },
     "outside": [
         "more than one fault per history; faults during pool reset / Connection.close() (C26); pre_ping",
@@ -463,7 +487,8 @@ META = {
     "stubs": ["vlib/fakedb.py fake DBAPI, extended in props/C27.py: savepoint statements go through cursor.execute (so that failures reach "
               "_handle_dbapi_exception), 'softdisc' fault = error that looks like a disconnect but leaves the server connection alive",
               "sqlalchemy.pool.base.time replaced by a strictly increasing counter during the harness"],
-    "assumptions": ["time is strictly increasing between pool state changes (the code's own NOTE in _ConnectionRecord.get_connection)",
+    "assumptions": ["engine creation and everything after the solver has fixed history and fault run concretely (tracer paused)",
+                    "time is strictly increasing between pool state changes (the code's own NOTE in _ConnectionRecord.get_connection)",
                     "the handle_error listener only reclassifies DBAPI errors"],
 }
 
@@ -471,12 +496,13 @@ META = {
 _FIRST = (EXEC, BEGIN, BEGIN_NESTED, COMMIT, ROLLBACK)  # a savepoint operation cannot come first
 
 
-def _slices(n: int, listener: int, first=_FIRST, split_second: bool = False):
+def _slices(n: int, listener: int, split: int):
+    """split 0: one slice; 1: one slice per first operation; 2: per first and second operation."""
+    if split == 0:
+        return [dict(op0=-1, op1=-1, listener=listener)]
     out = []
-    for op0 in first:
-        if n == 1 and op0 == BEGIN:
-            continue  # begin() alone makes no DBAPI call: nothing to inject
-        if not split_second:
+    for op0 in _FIRST:
+        if split == 1:
             out.append(dict(op0=op0, op1=-1, listener=listener))
             continue
         for op1 in range(NOPS):
@@ -490,14 +516,14 @@ def harnesses(tier: str) -> List[Harness]:
     q = tier == "quick"
     per_n = {n: [] for n in range(1, MAXN + 1)}
     for listener in range(4):
-        for n in (1, 2, 3):
-            per_n[n] += _slices(n, listener)
+        per_n[1] += _slices(1, listener, 0)
+        per_n[2] += _slices(2, listener, 0)
+        per_n[3] += _slices(3, listener, 1)
         if not q or listener in (L_NONE, L_FLIP):
-            per_n[4] += _slices(4, listener, split_second=True)
+            per_n[4] += _slices(4, listener, 1 if q else 2)
     if not q:
-        per_n[5] += _slices(5, L_NONE, split_second=True)
-        per_n[5] += _slices(5, L_FLIP, first=(EXEC, BEGIN_NESTED), split_second=True)
-    return [Harness("disconnect_history_n%d" % n, H_DISC[n], sl, budget_s=80 if q else 800) for n, sl in per_n.items() if sl]
+        per_n[5] += _slices(5, L_NONE, 2)
+    return [Harness("disconnect_history_n%d" % n, H_DISC[n], sl, budget_s=150 if q else 800) for n, sl in per_n.items() if sl]
 
 
 def _tag(rep) -> str:
